@@ -96,7 +96,7 @@ def lane_seq(a, spec):
             a.n += 1
             try:
                 if op == "handout":
-                    ann = "note %d" % step
+                    ann = "note %d" % step if rng.random() < 0.85 else rng.choice(["", " ", "0"])      # (also empty / blank ones)
                     had_unused = len(model["unused"]) > 0
                     ops.append(["handout", ann])
                     pk = wallet.get_annotated_public_key(ann)
@@ -213,7 +213,7 @@ def lane_balance(a, spec):
                 for _h in range(rng.randint(0, 2)):
                     if wallet.unused_public_keys or (wallet.keypairs and rng.random() < 0.5):
                         # (with no unused key left the wallet hands out a key that is in use, as for the miner)
-                        pk = nodekit_quiet(wallet.get_annotated_public_key, "x")
+                        pk = nodekit_quiet(wallet.get_annotated_public_key, rng.choice(["x", "x", ""]))
                         if rng.random() < 0.4 and pk in wallet.public_key_annotations:
                             wallet.restore_annotated_public_key(pk, rng.choice(["x", "reserved for potentially mined block"]))
                             a.inc("balance_after_restore")
